@@ -154,6 +154,7 @@ def run(ctx, model=None):
             check_case(ctx, gen.dead_shape_game(rng, kind, pat, front=rng.choice([None, P1, P2])), model)
     for k in range(12 if ctx.quick() else 200):
         check_case(ctx, gen.tiny_reach_game(rng), model)
+        check_case(ctx, gen.parallel_dead_game(rng), model)
     N = 300 if ctx.quick() else 8000
     for k in range(N):
         g = gen.slow_cycle_game(rng) if k % 9 == 0 else gen.layered_tie_game(rng) if k % 2 == 0 else \
